@@ -136,8 +136,20 @@ def _spine(term, ogp, bad, depth=0):
             if sus:
                 bad.append(('present-only-if', a))
         _spine(term[2], ogp, bad, depth + 1)
-    elif term[0] in ('unwrap', 'field', 'tf'):
-        _spine(term[1], ogp, bad, depth + 1)
+    elif term[0] in ('mcall', 'call', 'unwrap', 'cast', 'fmt', 'bin', 'callv', 'field', 'tf', 'f', 'idx'):
+        # the content is not the section as it was built but the result of an operation on it (`.to_string().replace(..).parse().unwrap()`,
+        # a token filter, ..): what reaches the output is then no longer what the section rules judged
+        def head(t_, d_=0):
+            if d_ > 4 or not isinstance(t_, tuple) or not t_:
+                return '..'
+            if t_[0] == 'mcall':
+                return head(t_[1], d_ + 1) + '.' + str(t_[2]) + '()'
+            if t_[0] == 'unwrap':
+                return head(t_[1], d_ + 1) + '.unwrap()'
+            if t_[0] == 'call':
+                return str(t_[1]) + '(..)'
+            return t_[0]
+        bad.append(('post-processed-by', ('path', head(term))))
 
 
 def wiring(ogp):
